@@ -17,7 +17,7 @@ RULE = ('seeded value generator (ints of any magnitude, floats incl. -0.0/inf/na
         'distinct_nontrivial = distinct (value class, storage mode read from the row, side of T, disk class, store '
         'path) cells')
 DISTINCT = ('cells',)
-REQUIRED = ('values_popped_in_abandoned_blocks', 'numbers_stepped_in_place', 'stores_over_expired_file', 'stores_over_live_file', 'stores_over_expired_inline', 'mode_raw', 'mode_binary_file', 'mode_text_file', 'mode_pickle_inline', 'mode_pickle_file',
+REQUIRED = ('stores_refused_for_a_file_name_in_use', 'stores_accepted_beside_colliding_names', 'values_popped_in_abandoned_blocks', 'numbers_stepped_in_place', 'stores_over_expired_file', 'stores_over_live_file', 'stores_over_expired_inline', 'mode_raw', 'mode_binary_file', 'mode_text_file', 'mode_pickle_inline', 'mode_pickle_file',
             'streams', 'rejected_values', 'jsondisk_roundtrips', 'deque_roundtrips', 'index_roundtrips',
             'fanout_roundtrips', 'push_roundtrips', 'fault_injected_stores', 'configs_lookup_in_transaction',
             'configs_lookup_lock_free', 'relative_directory_roundtrips', 'relocated_directory_roundtrips',
@@ -646,6 +646,63 @@ def relocation(dc, sc, res, rng, T):
         sc.drop(base)
 
 
+def name_collisions(dc, sc, res, rng, T):
+    """Two values whose files get the same name (a Disk subclass using the documented filename() hook with few names;
+    with the stock layout a repeated 128-bit draw): the second store must either be refused loudly and change nothing,
+    or leave every other key's value intact - a store never rewrites a file another row refers to (seeded/C01-11)."""
+    import hashlib
+    import io
+    import os
+
+    class FewNames(dc.Disk):
+        def filename(self, key=dc.UNKNOWN, value=dc.UNKNOWN):
+            name = 'v%d.val' % (int(hashlib.md5(repr(key).encode()).hexdigest(), 16) % 6)
+            return name, os.path.join(self._directory, name)
+
+    cfg_label = {'T': T, 'disk': 'Disk subclass with six file names'}
+    case = Case(res, cfg_label, signature)
+    d = sc.new()
+    cache = dc.Cache(d, disk=FewNames, disk_min_file_size=T)
+    pad = max(T, 8) + 8
+    model = {}
+    keys = ['n%d' % i for i in range(14)]
+    try:
+        for step in range(120):
+            k = rng.choice(keys)
+            r = rng.random()
+            if r < 0.6:
+                flavour = rng.randrange(4)
+                tag = ('%s-%d;' % (k, step))
+                text = tag * (pad // len(tag) + 1)
+                v = [text, text.encode(), {'pickled': text}, text.encode()][flavour]
+                try:
+                    if flavour == 3:
+                        cache.set(k, io.BytesIO(v), read=True)
+                    else:
+                        cache.set(k, v)
+                except OSError:
+                    res.count('stores_refused_for_a_file_name_in_use')
+                else:
+                    model[k] = v
+                    res.count('stores_accepted_beside_colliding_names')
+            elif r < 0.8:
+                got = cache.pop(k, '<MISSING>')
+                want = model.pop(k, '<MISSING>')
+                case.judge('colliding file names', 'set under a Disk with six file names', 'pop', want, got, 'any')
+            else:
+                cache.delete(k)
+                model.pop(k, None)
+            for kk in keys:
+                case.judge('colliding file names', 'set under a Disk with six file names; then %s of %r' % (
+                    'a store' if r < 0.6 else 'a removal', k), 'get', model.get(kk, '<MISSING>'),
+                    cache.get(kk, '<MISSING>'), 'any')
+            if res.new_violations() > 3:
+                return
+    finally:
+        cache.close()
+        sc.drop(d)
+
+
 def run_shard(tier, seed, shard, nshards, res):
     dc = common.use_repo()
     probe.install()
@@ -670,3 +727,4 @@ def run_shard(tier, seed, shard, nshards, res):
         run_containers(dc, sc, res, rng, T, shard % 6)
         fault_roundtrips(dc, sc, res, rng, [64, 16, 1000, 32768][shard % 4])
         relocation(dc, sc, res, rng, [0, 1, 100, 32768][shard % 4])
+        name_collisions(dc, sc, res, rng, [0, 16, 100, 4096][shard % 4])
